@@ -81,7 +81,10 @@ def run(ck: Check):
     tie_cases = [("residual-init-T1e9", None, 1e9), ("two-ulps-apart-T30", {3: 5.0, 12: 5.0000005}, 30.0),
                  ("tiny-gap-T1", {5: 0.01, 9: 0.010000001}, 1.0), ("large-logits-T1e-3", {2: 40.0, 7: 40.000004}, 1e-3),
                  # logits / temperature overflows the float range: softmax(inf, ...) is NaN unless the maximum is subtracted first
-                 ("residual-init-T1e-38", None, 1e-38), ("ordinary-logits-T1.2e-38", {4: 1.5, 11: -0.5, 6: 1.25}, 1.2e-38)]
+                 ("residual-init-T1e-38", None, 1e-38), ("ordinary-logits-T1.2e-38", {4: 1.5, 11: -0.5, 6: 1.25}, 1.2e-38),
+                 # a positive temperature below the smallest positive binary32 number is rounded to 0 when it meets the logits (F65)
+                 ("residual-init-T1e-46", None, 1e-46), ("ordinary-logits-T1e-300", {4: 1.5, 11: -0.5, 6: 1.25}, 1e-300),
+                 ("ordinary-logits-T5e-324", {1: 0.25, 14: 2.0}, 5e-324)]
     for name, logits, tau in tie_cases:
         for layer_kind in ("dense", "conv"):
             torch.manual_seed(ck.seed)
